@@ -133,7 +133,7 @@ READER_TB = [
 ]
 
 PROPS["C04"] = {
-    "lean": ["WsVerif.Props.C04"],
+    "lean": ["WsVerif.Props.C04", "WsVerif.Bridge.C04"],
     "rule": "Valid frame streams from a grammar (1-4 messages, 1-4 fragments incl. empty ones, ping/pong with 0..125-byte payloads between "
             "fragments and between messages, payload classes 0,1,2,7,8,125,126,300 (+70000 in thorough), text built from 1-4-byte code "
             "points, both sides) replayed under transport chunkings {whole,1,2,3,7,random}, EOF and data-with-EOF transports, through "
@@ -147,7 +147,7 @@ PROPS["C04"] = {
 }
 
 PROPS["C05"] = {
-    "lean": ["WsVerif.Props.C05"],
+    "lean": ["WsVerif.Props.C05", "WsVerif.Bridge.C04"],
     "rule": "Every valid prefix of 0..2 complete units (optionally followed by an open fragmented message, with interleaved pong) extended by "
             "every offending frame of the alphabet (reserved data/control opcode, control > 125, non-final control, RSV without extension, RSV on "
             "control, wrong masking on data and on control, new data frame while fragmented, continuation while idle, wrongly masked "
@@ -161,7 +161,7 @@ PROPS["C05"] = {
 }
 
 PROPS["C16"] = {
-    "lean": ["WsVerif.Props.C16"],
+    "lean": ["WsVerif.Props.C16", "WsVerif.Bridge.C04"],
     "rule": "Reader: streams of 1-3 messages (with a 10-byte ping between fragments) cut at EVERY byte offset, ending in EOF and in a transport "
             "error, under chunkings {whole,1,5}, through ReadMessage, the ReadData family and Reader scripts. Writer: random op sequences "
             "with the destination failing at each write index 0..13, followed by Flush/Write/Flush/FlushFragment/WriteThrough probes; "
@@ -175,7 +175,7 @@ PROPS["C16"] = {
 }
 
 PROPS["C08"] = {
-    "lean": ["WsVerif.Props.C08"],
+    "lean": ["WsVerif.Props.C08", "WsVerif.Bridge.C08"],
     "rule": "ControlHandler.Handle (masked source on the server side), ControlFrameHandler and HandleControlMessage (Client/Server variants) "
             "for ping, pong, close x payload lengths 0..125 (all in thorough; 0..12, every 9th, 118..125 in quick) x both sides; all 65,536 "
             "close codes (thorough; 1/13 + the boundary windows in quick) with no / valid / truncated / 0xFF reasons; 1-byte close payloads; "
